@@ -114,6 +114,13 @@ def main(tier, replay=None):
         tlc.require_ok(des, rep, "design")
         rep.add_tlc(des)
         behs = des.payloads("BEH")
+        if tier != "quick":
+            import subprocess
+            r = subprocess.run([common.SPECS + "/apalache/run_generic.sh", "RayTraceAll.tla", "All", "NegControl"],
+                               capture_output=True, text=True)
+            rep.coverage["apalache"] = [l for l in r.stdout.splitlines() if l.startswith("APALACHE")]
+            if r.returncode != 0:
+                rep.machinery("apalache check of RayTraceAll.tla failed: %s" % r.stdout[-400:])
         if tier == "quick":
             behs = rng.sample(behs, min(6000, len(behs)))
         sseed = rng.randrange(1 << 30)
